@@ -106,7 +106,9 @@ func hasNil(n *FN) bool {
 
 // numInfo: what we know about a string used as a numeral.
 type numInfo struct {
-	accepted bool     // the engine parses it (probed through gte/lte x x)
+	accepted bool     // the engine parses it: probed against a different, certainly accepted numeral in both positions
+	selfCmp  bool     // gte/lte of the string with itself holds
+	oneSided bool     // accepted as a tag value but not as a filter value, or the reverse
 	grammar  bool     // [+-]?digits[.digits]: its exact decimal value is defined
 	rat      *big.Rat // exact value when grammar
 }
@@ -174,7 +176,22 @@ func numeral(s string) numInfo {
 	tags := map[string]string{"n": s}
 	a, _, p1 := engineMatch(&FN{Key: "n", Cmp: "gte", Val: s}, tags)
 	b, _, p2 := engineMatch(&FN{Key: "n", Cmp: "lte", Val: s}, tags)
-	ni.accepted = (a && p1 == nil) || (b && p2 == nil)
+	ni.selfCmp = (a && p1 == nil) || (b && p2 == nil)
+	// Acceptance is probed against another numeral, as tag value and as filter value: every
+	// number is >= 7 or < 7. (Probing x against x alone would let an engine that short-cuts
+	// identical strings define its own acceptance.)
+	other := "7"
+	if s == other {
+		other = "8"
+	}
+	probe := func(cmp, val, tag string) bool {
+		r, _, pn := engineMatch(&FN{Key: "n", Cmp: cmp, Val: val}, map[string]string{"n": tag})
+		return r && pn == nil
+	}
+	asTag := probe("gte", other, s) || probe("lt", other, s)
+	asVal := probe("gte", s, other) || probe("lt", s, other)
+	ni.accepted = asTag && asVal
+	ni.oneSided = asTag != asVal
 	ni.rat, ni.grammar = parseGrammar(s)
 	if len(numCache) > 1<<16 {
 		numCache = map[string]numInfo{}
@@ -812,6 +829,13 @@ func (k *checker) checkNode(root, n *FN, tags map[string]string) (val bool, know
 		}
 		if isNumOp(n.Cmp) && present {
 			a, b := numeral(tags[n.Key]), numeral(n.Val)
+			for i, x := range []numInfo{a, b} {
+				str := []string{tags[n.Key], n.Val}[i]
+				if x.oneSided || x.selfCmp != x.accepted {
+					k.violation("numeric-acceptance-inconsistent", fmt.Sprintf("%q: compares with itself=%v, with another numeral=%v (one-sided=%v): a string is either a numeral the engine accepts in every numeric comparison or in none", str, x.selfCmp, x.accepted, x.oneSided), root, tags, map[string]any{"string": str})
+					return false, false
+				}
+			}
 			switch {
 			case a.accepted && b.accepted && a.grammar && b.grammar:
 				k.count("numeric_both_numerals_accepted")
